@@ -713,7 +713,7 @@ def run(chk):
     if chk.tier == 'thorough' and proved:
         chk.leanchecker(MODULE)
     quick = chk.tier == 'quick'
-    n = 14 if quick else 50
+    n = 10 if quick else 50
     # the cursor classes fork on no feature macro besides constexpr-ness: two compilers x old/new standards
     configs = W.configs_for('quick') if quick else [('g++', 'c++11'), ('g++', 'c++20'), ('clang++-14', 'c++14'),
                                                      ('clang++-14', 'c++17')]
